@@ -4,5 +4,5 @@ CONSTANTS
   MaxK = @MAXK@
   MaxInc = @MAXINC@
   LdExtra = @LDEXTRA@
-INVARIANTS LdLegal InRange Injective Tight RowFits Inverse Reverse UnitDiagonal
+INVARIANTS LdLegal InRange Injective Tight RowFits Inverse Reverse UnitDiagonal ColDuality ColRange ColInject ColInverse
 CHECK_DEADLOCK FALSE
